@@ -588,3 +588,46 @@ Definition mstep (atomic : bool) (t : mpc) (s : msh) : mpc * msh :=
   | MDone => (t, s)
   end.
 Definition minit : msh := {| m_closed := false; m_lock := false; m_runs := 0 |}.
+
+(* ------------------------------------------------------------------------------------------------ *)
+(* N. client tunnel manager: a tunnel registered under the id of a tunnel that is closing            *)
+(* ------------------------------------------------------------------------------------------------ *)
+(* client/tunnel/manager.go RegisterTunnel (LoadOrStore: refused while ANY entry exists under the id; `replace = true`: an
+   entry whose tunnel is Closing / Closed is swapped for the new tunnel) and tunnel.go Close, which ends with
+   manager.UnregisterTunnel(t.id) — deletion BY ID.  Tunnel 0 is registered and being closed by the one closer that won its
+   state CAS (section B); NReg b threads register tunnels b >= 1 under the same id. *)
+Record nsh := { n_entry : option nat; n_closing : bool; n_closed0 : bool; n_regok : list nat }.
+Inductive npc := NMark | NUnreg | NDone | NReg (b : nat) | NRegRet (ok : bool).
+Definition nstep (replace : bool) (t : npc) (s : nsh) : npc * nsh :=
+  match t with
+  | NMark => (NUnreg, {| n_entry := n_entry s; n_closing := true; n_closed0 := n_closed0 s; n_regok := n_regok s |})   (* state CAS -> Closing *)
+  | NUnreg => (NDone, {| n_entry := None; n_closing := n_closing s; n_closed0 := true; n_regok := n_regok s |})      (* LoadAndDelete(id) *)
+  | NReg b =>
+      match n_entry s with
+      | None => (NRegRet true, {| n_entry := Some b; n_closing := n_closing s; n_closed0 := n_closed0 s; n_regok := n_regok s ++ [b] |})
+      | Some o => if replace && Nat.eqb o 0 && n_closing s
+                  then (NRegRet true, {| n_entry := Some b; n_closing := n_closing s; n_closed0 := n_closed0 s; n_regok := n_regok s ++ [b] |})
+                  else (NRegRet false, s)
+      end
+  | NDone | NRegRet _ => (t, s)
+  end.
+Definition ninit : nsh := {| n_entry := Some 0; n_closing := false; n_closed0 := false; n_regok := [] |}.
+
+(* ------------------------------------------------------------------------------------------------ *)
+(* O. a clean handler that takes the Dispose lock of its own component                               *)
+(* ------------------------------------------------------------------------------------------------ *)
+(* Dispose.Close runs the clean handlers while holding currentLock (not re-entrant).  `reenter = true`: a handler reaches,
+   on the same goroutine, a call that takes that lock again (IsClosed() / Close() of the same component). *)
+Record osh := { o_lock : bool; o_closed : bool; o_ran : nat }.
+Inductive opc := OLock | ORun | OUnlock | ODone.
+Definition ostep (reenter : bool) (t : opc) (s : osh) : opc * osh :=
+  match t with
+  | OLock => if o_lock s then (t, s)
+             else if o_closed s then (ODone, s)
+             else (ORun, {| o_lock := true; o_closed := true; o_ran := o_ran s |})
+  | ORun => if reenter && o_lock s then (t, s)               (* waits for the lock it holds itself *)
+            else (OUnlock, {| o_lock := o_lock s; o_closed := o_closed s; o_ran := S (o_ran s) |})
+  | OUnlock => (ODone, {| o_lock := false; o_closed := o_closed s; o_ran := o_ran s |})
+  | ODone => (t, s)
+  end.
+Definition oinit : osh := {| o_lock := false; o_closed := false; o_ran := 0 |}.
